@@ -648,6 +648,30 @@ func (s *sched) nextDeadline() time.Duration {
 	return best
 }
 
+// nextDeadlineStrict is nextDeadline without the clamp: 0 when none lies in the future.
+func (s *sched) nextDeadlineStrict() time.Duration {
+	var best time.Duration
+	consider := func(t time.Time) {
+		if t.IsZero() {
+			return
+		}
+		d := time.Until(t)
+		if d > 0 && (best == 0 || d < best) {
+			best = d
+		}
+	}
+	if s.hasServer && !s.w.Listener.Closed() {
+		consider(s.w.Listener.Deadline())
+	}
+	for _, c := range s.w.Conns {
+		if c.Accepted && !c.ServerClosed() {
+			consider(c.ServerReadDeadline())
+		}
+		consider(c.ClientReadDeadline())
+	}
+	return best
+}
+
 func (s *sched) advance(tapeChoice bool) {
 	d := s.nextDeadline()
 	if d <= 0 {
@@ -671,7 +695,25 @@ func (s *sched) advance(tapeChoice bool) {
 		}
 	}
 	s.w.Rec(world.Ev{Actor: "sched", Kind: "advance", A: int64(d)})
-	time.Sleep(d)
+	s.sleep(d)
+}
+
+// sleep advances the fake clock by d, stopping at every armed deadline on the way so
+// that each expiry is observed at its own instant (endpoints have no timers of their
+// own: see World.ExpireDeadlines).
+func (s *sched) sleep(d time.Duration) {
+	for d > 0 {
+		nd := s.nextDeadlineStrict()
+		if nd > 0 && nd < d {
+			time.Sleep(nd)
+			d -= nd
+			s.w.ExpireDeadlines()
+			synctest.Wait()
+			continue
+		}
+		time.Sleep(d)
+		d = 0
+	}
 	s.w.ExpireDeadlines()
 }
 
@@ -964,8 +1006,7 @@ func (s *sched) drain() {
 		}
 		s.res.DrainAdvances++
 		s.w.Rec(world.Ev{Actor: "sched", Kind: "advance", A: int64(d)})
-		time.Sleep(d)
-		s.w.ExpireDeadlines()
+		s.sleep(d)
 	}
 	synctest.Wait()
 	select {
